@@ -41,3 +41,29 @@ Theorem C33_fractional_refuted :
   end /\ numa_nodes frac_info = [].
 Proof. exact frac_witness. Qed.
 Print Assumptions C33_fractional_refuted.
+
+(* C33_affinity (the strongest true statement; "C33_partial"): on a node WITHOUT
+   NUMA, for a bound workload holding WHOLE cores (each at shareBase), a
+   keep-cpu-bind request whose validated cpu amount is the same whole number of
+   cores, any memory delta, any final sort of the planner and any fuel: if
+   CalculateRealloc grants the request, the new resource has exactly the origin's
+   cores (each at shareBase) and no NUMA node.  The two hypotheses on the
+   available map say that after the origin is put back its cores are whole free
+   cores (what the bookkeeping invariant of C08 gives on a node whose cores have
+   whole-core shares). *)
+Theorem C33_affinity : forall sortf (info : node_info) (base maxshare : Z) (origin : wres) (raw nr : wreq)
+    (fuel : nat) (new d : wres),
+  (0 < base)%Z ->
+  nr_numa (ni_cap info) = [] ->
+  rq_keep raw = true ->
+  wr_cpumap origin <> [] -> NoDup (keys (wr_cpumap origin)) ->
+  (forall c v, In (c, v) (wr_cpumap origin) -> v = base) ->
+  NoDup (keys (nr_cpumap (get_available_nofloat (put_back info origin)))) ->
+  (forall c, In c (keys (wr_cpumap origin)) ->
+             lookup_opt (nr_cpumap (get_available_nofloat (put_back info origin))) c = Some base) ->
+  wreq_validate (realloc_newreq origin raw) = inr nr ->
+  pieces_request base (rq_cpu_req nr) = (base * Z.of_nat (List.length (wr_cpumap origin)))%Z ->
+  Realloc.calculate_realloc_g sortf info base maxshare origin raw [] fuel = Ok (inr (new, d)) ->
+  wr_numanode new = EmptyString /\ forall k, lookup_opt (wr_cpumap new) k = lookup_opt (wr_cpumap origin) k.
+Proof. exact realloc_keeps_cores. Qed.
+Print Assumptions C33_affinity.
